@@ -144,7 +144,8 @@ def algebra_cases(draw, max_taxa, max_trees):
             "ins": draw(st.lists(st.integers(0, 10), min_size=1, max_size=6)),
             "order": list(draw(st.permutations(list(range(P))))),
             "ops": [draw(st.sampled_from(OPS)) for _ in range(P)], "nest": draw(st.booleans()),
-            "explicit": draw(st.booleans()), "use_w": draw(st.booleans()), "master_first": draw(st.booleans())}
+            "explicit": draw(st.booleans()), "use_w": draw(st.booleans()), "master_first": draw(st.booleans()),
+            "prequery": draw(st.booleans())}
 
 
 def newick_of(rt, rooted_flag):
@@ -201,6 +202,13 @@ def check_algebra(ctx, case):
 
     def merge(a, b, op):
         key = "C06.merge:" + op
+        if case.get("prequery"):
+            # summaries read BEFORE a merge must not be served again afterwards
+            a.split_distribution.split_frequencies
+            b.split_distribution.split_frequencies
+            if len(a):
+                a.consensus_tree()
+            ctx.cls("A:queried_before_merge")
         if op == "update":
             ctx.call(key, a.update, b)
             return a
